@@ -28,7 +28,7 @@ Definition new_leak (c : cfg) (st : astate) (dst : nat) (bk : bkind) : list N :=
   | BStackN n size => if stackn_fits n (c_sz c) size then slot_xs (get_a dst st) else []
   | _ => slot_xs (get_a dst st)
   end.
-Definition leak_of (c : cfg) (st : astate) (o : op) : list N :=
+Definition leak_of (c : cfg) (st : astate) (nx : N) (o : op) : list N :=
   match o with
   | OPop _ v KForget =>
       match get_a v st with Some a => skipn (length (a_xs a) - 1) (a_xs a) | None => [] end
@@ -43,6 +43,31 @@ Definition leak_of (c : cfg) (st : astate) (o : op) : list N :=
           | Some (s, e) =>
               match sp_walk xs pat (N.to_nat s) (N.to_nat e) with
               | Some (_, _, i, j) => firstn (j - i) (skipn i xs) ++ skipn (N.to_nat e) xs
+              | None => []
+              end
+          | None => []
+          end
+      | None => []
+      end
+  | OSplice _ v sb eb pat f _ n _ _ =>
+      (* a leaked splice: as a leaked drain, and the replacement values; a splice whose drop is refused
+         (result too long): the rest of the range and the tail behind it *)
+      match get_a v st with
+      | Some a =>
+          let xs := a_xs a in
+          match range_of_bounds usize_max (N.of_nat (length xs)) (to_sb sb) (to_sb eb) with
+          | Some (s, e) =>
+              match sp_walk xs pat (N.to_nat s) (N.to_nat e) with
+              | Some (_, _, i, j) =>
+                  let hidden := firstn (j - i) (skipn i xs) ++ skipn (N.to_nat e) xs in
+                  match f with
+                  | FinForget => hidden ++ next_ids c nx (N.to_nat n)
+                  | FinDrop =>
+                      let new_len := N.of_nat (N.to_nat s) + n + N.of_nat (length xs - N.to_nat e) in
+                      if (usize_max <? new_len)
+                         || (match acap c (a_bk a) with Some cap => cap <? new_len | None => false end)
+                      then hidden else []
+                  end
               | None => []
               end
           | None => []
@@ -365,7 +390,7 @@ Lemma drain_own st nx v sb eb pat f r D L :
   sp_drain c st nx v sb eb pat f = Some r ->
   Permutation (created c nx) (vis st ++ D ++ L) ->
   Permutation (created c (s_nx r))
-    (vis (s_st r) ++ (D ++ drops (s_evs r)) ++ (L ++ leak_of c st (ODrain Erased v sb eb pat f))).
+    (vis (s_st r) ++ (D ++ drops (s_evs r)) ++ (L ++ leak_of c st nx (ODrain Erased v sb eb pat f))).
 Proof.
   intros Hr Hinv. unfold sp_drain in Hr. cbn [leak_of].
   destruct (get_a v st) as [a|] eqn:Hg; [|discriminate]. cbv zeta in Hr.
@@ -398,6 +423,58 @@ Proof.
     destruct f; perm_count.
 Qed.
 
+Lemma drops_nexts k : drops (repeat ENext k) = [].
+Proof. induction k as [|k IH]; [reflexivity|exact IH]. Qed.
+
+Lemma splice_own st nx v sb eb pat f rk n wa cl r D L :
+  1 <= nx ->
+  sp_splice c st nx v sb eb pat f rk n wa cl = Some r ->
+  Permutation (created c nx) (vis st ++ D ++ L) ->
+  Permutation (created c (s_nx r))
+    (vis (s_st r) ++ (D ++ drops (s_evs r)) ++ (L ++ leak_of c st nx (OSplice Erased v sb eb pat f rk n wa cl))).
+Proof.
+  intros Hnx Hr0 Hinv.
+  destruct (sp_splice_inv _ _ _ _ _ _ _ _ _ _ _ _ _ Hr0) as (_ & _ & _ & Hr). clear Hr0.
+  unfold sp_splice in Hr. rewrite N.eqb_refl in Hr. cbn [negb] in Hr. cbn [leak_of].
+  destruct (get_a v st) as [a|] eqn:Hg; [|discriminate]. cbv zeta in Hr.
+  set (xs := a_xs a) in *.
+  set (ts := next_ids c nx (N.to_nat n)) in *.
+  assert (Hcr : created c (nx + n) = created c nx ++ ts).
+  { replace (nx + n) with (nx + N.of_nat (N.to_nat n)) by lia. apply created_add. exact Hnx. }
+  pose proof (vis_get_any st v) as Hvis. rewrite Hg in Hvis. cbn [slot_xs] in Hvis. fold xs in Hvis.
+  destruct (range_of_bounds usize_max (N.of_nat (length xs)) (to_sb sb) (to_sb eb)) as [[sN eN]|] eqn:Erb.
+  - assert (Hb : sN <= eN /\ eN <= N.of_nat (length xs)).
+    { unfold range_of_bounds in Erb.
+      repeat match type of Erb with
+      | context [match ?x with _ => _ end] => destruct x eqn:?; try discriminate
+      | context [if ?x then _ else _] => destruct x eqn:?; try discriminate
+      end.
+      injection Erb as <- <-. match goal with H : (_ && _)%bool = true |- _ => apply andb_prop in H; destruct H as [H1 H2] end.
+      apply N.leb_le in H1, H2. lia. }
+    set (s := N.to_nat sN) in *. set (e := N.to_nat eN) in *.
+    assert (Hse : (s <= e)%nat) by lia. assert (Hel : (e <= length xs)%nat) by lia.
+    destruct (sp_walk xs pat s e) as [[[[rets ds] i] j]|] eqn:Ew; [|discriminate].
+    destruct (sp_walk_perm xs pat s e rets ds i j Hse Hel Ew) as (Hp & Hb1 & Hb2 & Hb3).
+    assert (Hx : Permutation xs (firstn s xs ++ firstn (e - s) (skipn s xs) ++ skipn e xs)).
+    { rewrite <- (firstn_skipn s xs) at 1. apply Permutation_app_head.
+      rewrite (skipn_split_range xs s e Hse) at 1. reflexivity. }
+    pose proof (vis_set_any st v (Some (with_xs a (firstn s xs)))) as H1. cbn [slot_xs with_xs a_xs] in H1.
+    destruct f.
+    + destruct (usize_max <? N.of_nat s + n + N.of_nat (length xs - e)) eqn:Eov.
+      * injection Hr as <-. cbn [panic_res s_nx s_st s_evs orb]. rewrite Hcr.
+        rewrite drops_app, drops_yielded, Hdg, drops_map. perm_count.
+      * destruct (match acap c (a_bk a) with Some cap => cap <? N.of_nat s + n + N.of_nat (length xs - e) | None => false end) eqn:Ecap.
+        -- injection Hr as <-. cbn [panic_res s_nx s_st s_evs orb]. rewrite Hcr.
+           rewrite drops_app, drops_yielded, Hdg, drops_map. perm_count.
+        -- injection Hr as <-. cbn [ok_res s_nx s_st s_evs orb]. rewrite Hcr.
+           pose proof (vis_set_any st v (Some (with_xs a (VecSpec.sp_splice s e ts xs)))) as H2.
+           cbn [slot_xs with_xs a_xs] in H2. unfold VecSpec.sp_splice in *.
+           rewrite !drops_app, drops_yielded, Hdg, drops_map, drops_nexts. perm_count.
+    + injection Hr as <-. cbn [ok_res s_nx s_st s_evs]. rewrite Hcr. rewrite drops_yielded. perm_count.
+  - injection Hr as <-. cbn [panic_res s_nx s_st s_evs]. rewrite Hcr, Hdg, drops_map.
+    destruct f; perm_count.
+Qed.
+
 Lemma new_own st nx dst bk r D L :
   sp_new c st nx dst bk = Some r ->
   Permutation (created c nx) (vis st ++ D ++ L) ->
@@ -417,7 +494,7 @@ Proof. rewrite app_nil_r. reflexivity. Qed.
 Theorem step_own st nx o r D L :
   1 <= nx -> spec_step c st nx o = Some r ->
   Permutation (created c nx) (vis st ++ D ++ L) ->
-  Permutation (created c (s_nx r)) (vis (s_st r) ++ (D ++ drops (s_evs r)) ++ (L ++ leak_of c st o)).
+  Permutation (created c (s_nx r)) (vis (s_st r) ++ (D ++ drops (s_evs r)) ++ (L ++ leak_of c st nx o)).
 Proof.
   intros Hnx Hr Hinv. destruct o; cbn [spec_step] in Hr; try discriminate.
   - (* ONew *)
@@ -455,6 +532,7 @@ Proof.
     destruct (idx <? N.of_nat (length (a_xs av))); injection Hr as <-;
       cbn [ok_res panic_res s_nx s_st s_evs leak_of drops flat_map]; perm_count.
   - exact (drain_own st nx v sb eb pat f r D L Hr Hinv).
+  - exact (splice_own st nx v sb eb pat f rk n wrong_at claimed r D L Hnx Hr Hinv).
   - (* OClone *)
     unfold sp_clone in Hr. cbn [leak_of]. destruct (Nat.eqb dst v); [discriminate|].
     destruct (get_a v st) as [av|] eqn:Hg; [|discriminate]. injection Hr as <-.
@@ -486,7 +564,7 @@ Fixpoint hist_leaks (c : cfg) (st : astate) (nx : N) (ops : list op) : list N :=
   match ops with
   | [] => []
   | o :: r => match spec_step c st nx o with
-              | Some x => leak_of c st o ++ hist_leaks c (s_st x) (s_nx x) r
+              | Some x => leak_of c st nx o ++ hist_leaks c (s_st x) (s_nx x) r
               | None => []
               end
   end.
@@ -494,6 +572,7 @@ Fixpoint hist_leaks (c : cfg) (st : astate) (nx : N) (ops : list op) : list N :=
 Lemma spec_nx_mono c st nx o r : spec_step c st nx o = Some r -> nx <= s_nx r.
 Proof.
   intros H. destruct o; cbn [spec_step] in H; try discriminate;
+    try (apply sp_splice_inv in H; destruct H as (_ & _ & _ & H); unfold sp_splice in H; rewrite N.eqb_refl in H; cbn [negb] in H);
     unfold sp_offer, sp_take, sp_take_elem, sp_capacity, sp_drain, sp_new, sp_clone in H; cbv zeta in H;
     repeat match type of H with
     | Some _ = Some _ => injection H as <-
@@ -522,7 +601,7 @@ Proof.
     destruct (spec_run c (s_st x) (s_nx x) ops) as [l|] eqn:El; [|discriminate]. injection Hs as <-.
     pose proof (step_own c Hdg st nx o x D L Hnx Ex Hinv) as H1.
     pose proof (spec_nx_mono _ _ _ _ _ Ex) as Hm.
-    specialize (IH (s_st x) (s_nx x) l (D ++ drops (s_evs x)) (L ++ leak_of c st o) Hdg ltac:(lia) El H1).
+    specialize (IH (s_st x) (s_nx x) l (D ++ drops (s_evs x)) (L ++ leak_of c st nx o) Hdg ltac:(lia) El H1).
     unfold end_of in *. cbn [fold_left]. unfold hist_drops in *. cbn [flat_map].
     rewrite !app_assoc in *. exact IH.
 Qed.
